@@ -201,6 +201,34 @@ fn run_str(v: &[u64]) {
                     check_str(b.get(j), s[j]);
                 }
             }
+            // pre-sizing in mid-life (narrower sources, no sources) followed by another wide row: the earlier rows
+            // still read their own strings
+            let mut w = c;
+            let narrow = {
+                let mut n = <ColumnsRegion<StringRegion>>::default();
+                let _ = n.push(&s[..1]);
+                n
+            };
+            w.reserve_regions(std::iter::once(&narrow));
+            w.reserve_regions(std::iter::empty());
+            let rev = [s[2], s[1], s[0]];
+            let i2 = w.push(rev.to_vec());
+            for (i, want) in [(i0, &s[..1]), (i1, &s[..]), (i2, &rev[..])] {
+                let row = w.index(i);
+                vassert!(row.len() == want.len(), "VF:string.columns.len");
+                for j in 0..want.len() {
+                    check_str(row.get(j), want[j]);
+                }
+            }
+            // C20: a row replayed as a read item of a wider region stores exactly what the slice form stores
+            let mut wide = <ColumnsRegion<StringRegion>>::default();
+            let _ = wide.push(s.to_vec());
+            let k = wide.push(&s[..1]);
+            let (mut a, mut b) = (<ColumnsRegion<StringRegion>>::default(), <ColumnsRegion<StringRegion>>::default());
+            let (ia, ib) = (a.push(wide.index(k)), b.push(&s[..1]));
+            let used = |r: &ColumnsRegion<StringRegion>| -> usize { collect_heap(|cb| r.heap_size(cb)).iter().map(|p| p.0).sum() };
+            vassert!(ia == ib, "VF:string.columns.forms.index");
+            vassert!(used(&a) == used(&b), "VF:string.columns.forms.used_bytes");
         }
     }
 }
@@ -713,7 +741,7 @@ pub fn harnesses() -> Vec<H> {
             bound: "StringRegion: String, &String, &&str versus &str on twins for the 6-string catalogue (1-4 byte scalars, combining sequence, empty), region pre-filled with 0..2 strings", kani: false },
         H { name: "slice_nested", props: &["C01", "C02"], nargs: 7, pre: pre_nested, doms: doms_nested, run: run_nested, panic_ok: false,
             bound: "SliceRegion<SliceRegion<MirrorRegion<u8>>>: one earlier item plus an outer item of 0..2 inner vectors of length 0..2, bytes arbitrary", kani: false },
-        H { name: "string_compositions", props: &["C01", "C02", "C04", "C12"], nargs: 4, pre: pre_str, doms: doms_str, run: run_str, panic_ok: false,
+        H { name: "string_compositions", props: &["C01", "C02", "C04", "C12", "C20"], nargs: 4, pre: pre_str, doms: doms_str, run: run_str, panic_ok: false,
             bound: "three strings from a 6-string catalogue (1-4 byte scalars, combining sequence, empty) in ConsecutiveIndexPairs<StringRegion>, CollapseSequence<ConsecutiveIndexPairs<StringRegion>>, SliceRegion<StringRegion>, ColumnsRegion<StringRegion> (incl. clone and merge_regions)", kani: false },
         H { name: "fanout_roundtrip", props: &["C01", "C02", "C20", "C14"], nargs: 8, pre: pre_fan, doms: doms_fan, run: run_fan, panic_ok: false,
             bound: "OptionRegion<StringRegion>, ResultRegion<StringRegion, MirrorRegion<u8>>, TupleABRegion<StringRegion, MirrorRegion<u64>>: two pushes, each variant, owned and reference forms, twin fed owned forms", kani: false },
